@@ -394,3 +394,50 @@ TRUSTED_BASE = [
     "extraction (ExtrOcamlBasic only, no Extract Constant/Inductive beyond it) + ocamlopt 4.13.1 + the runner's driver glue",
     "the Rust harness (path dependency on /repo, --cfg cooklang_verif) and the Python comparer/generators",
 ]
+
+
+# --------------------------------------------------------------------------
+# The decision protocol shared by all checks (DESIGN.md 2.5)
+
+def decide(rep, pid, layer, audit, monitor_hits, disagreements, tier, unchecked):
+    """monitor_hits: list of (input_repr, what, replay_dict) - property fails on the implementation.
+    disagreements: list of (input_repr, replay_dict) - model and implementation differ.
+    Known findings (known_findings.json, 'open') are matched by the caller before this is called."""
+    for s, what, rp in sorted(monitor_hits, key=lambda t: len(str(t[0])))[:3]:
+        d = {"layer": layer}
+        d.update(rp)
+        rep.violation("%s: %s on %r" % (pid, what, s), d, found_input=True)
+    if not monitor_hits:
+        if disagreements:
+            s, rp = min(disagreements, key=lambda t: len(str(t[0])))
+            d = {"layer": layer, "unchecked": unchecked, "disagreeing_cases": len(disagreements)}
+            d.update(rp)
+            rep.violation("model and implementation disagree on %r (%d cases); no input violating %s was found"
+                          % (s, len(disagreements), pid), d, found_input=False)
+        if not audit["ok"]:
+            rep.violation("proof obligations of %s do not check: %s" % (pid, "; ".join(audit["failed"])),
+                          {"theorems": audit["theorems"], "failed": audit["failed"],
+                           "log": audit["log"][-2500:]}, found_input=False)
+    if tier == "thorough" and audit["ok"]:
+        ok, out = coqchk(pid)
+        rep.coverage["coqchk"] = "ok" if ok else out[-800:]
+        if not ok:
+            rep.violation("coqchk rejects Properties/%s.vo" % pid, {"log": out}, found_input=False)
+
+
+def proof_coverage(rep, pid, audit, tier, modelled):
+    rep.coverage.update({
+        "obligations": audit["obligations"], "discharged": audit["discharged"],
+        "theorems": audit["theorems"], "axioms": audit["axioms"],
+        "checker_cmd": "make -C coq Properties/%s.vo && coqc -Q coq CL coq/Properties/%s.v "
+                       "(Print Assumptions of every theorem audited; forbidden-vernacular scan)" % (pid, pid)
+                       + ("; coqchk -silent -o CL.Properties.%s" % pid if tier == "thorough" else ""),
+        "trusted_base": TRUSTED_BASE + ["modelled, not verified: " + modelled],
+    })
+
+
+def load_corpus(pid):
+    p = os.path.join(VERIF, "corpus", "%s.cases" % pid)
+    if not os.path.exists(p):
+        return []
+    return [l.rstrip("\n") for l in open(p) if l.strip() and not l.startswith("#")]
